@@ -50,6 +50,7 @@ type inst struct {
 	tmp     int
 	handled map[*ast.UnaryExpr]bool
 	dense   bool
+	vdense  bool // a scheduling point before every statement
 	points  int
 }
 
@@ -164,6 +165,13 @@ func (in *inst) block(b *ast.BlockStmt) {
 func (in *inst) stmts(list []ast.Stmt) []ast.Stmt {
 	var out []ast.Stmt
 	for _, s := range list {
+		if in.vdense && s != nil {
+			switch s.(type) {
+			case *ast.EmptyStmt, *ast.DeclStmt:
+			default:
+				out = append(out, in.call("Yield", in.site(s.Pos(), "stmt")))
+			}
+		}
 		out = append(out, in.stmt(s)...)
 	}
 	return out
@@ -467,6 +475,7 @@ func main() {
 	repo := flag.String("repo", "/repo", "repository root")
 	out := flag.String("out", "", "scratch output directory")
 	dense := flag.String("dense", "", "comma separated files (relative to repo) that get function-entry yields")
+	vdense := flag.String("vdense", "", "comma separated files (relative to repo) that get a yield before every statement")
 	flag.Parse()
 	if *out == "" || flag.NArg() == 0 {
 		die("usage: instrument -repo R -out D pkgdir...")
@@ -475,6 +484,12 @@ func main() {
 	for _, d := range strings.Split(*dense, ",") {
 		if d != "" {
 			denseSet[d] = true
+		}
+	}
+	vdenseSet := map[string]bool{}
+	for _, d := range strings.Split(*vdense, ",") {
+		if d != "" {
+			vdenseSet[d] = true
 		}
 	}
 	repl := map[string]string{}
@@ -502,7 +517,7 @@ func main() {
 			if err != nil {
 				die("parse %s: %v", path, err)
 			}
-			in := &inst{fset: fset, file: filepath.ToSlash(filepath.Clean(rel)), handled: map[*ast.UnaryExpr]bool{}, dense: denseSet[filepath.ToSlash(filepath.Clean(rel))]}
+			in := &inst{fset: fset, file: filepath.ToSlash(filepath.Clean(rel)), handled: map[*ast.UnaryExpr]bool{}, dense: denseSet[filepath.ToSlash(filepath.Clean(rel))], vdense: vdenseSet[filepath.ToSlash(filepath.Clean(rel))]}
 			in.fileDecls(f)
 			// fail closed: every receive expression must have been handled
 			ast.Inspect(f, func(x ast.Node) bool {
